@@ -36,7 +36,7 @@ OpProp(op, kind) ==
   {"C18"} \cup
   (IF op \in EntryOps THEN {"C14"} \cup KindProp(kind)
    ELSE IF op \in RawEntryOps THEN {"C14"}
-   ELSE IF op \in {"retain", "extract_if", "t_extract_if", "drain"} THEN {"C10"} \cup KindProp(kind)
+   ELSE IF op \in {"retain", "extract_if", "t_extract_if", "drain"} THEN {"C10"} \cup KindProp(kind) \cup (IF op = "drain" THEN {"C09"} ELSE {})
    ELSE IF op \in {"iter", "into_iter", "iter_default"} THEN {"C09"}
    ELSE IF op \in ParOps THEN {"C19"} \cup (IF op = "par_drain" THEN {"C10"} ELSE {})
    ELSE IF op \in {"serde_roundtrip", "serde_de", "serde_de_in_place"} THEN {"C20"}
